@@ -103,8 +103,26 @@ def run(ctx):
         "payload characters are sampled: k seeded concretizations per enumerated text, the first canonical",
         "trusted: TLC, the concretizer (states what it wrote), the independent line classifier, the projections",
     ]
+    # (b) code -> spec: record first (the recorder does not depend on TLC)
+    ntr, maxlines = (60, 40) if quick else (600, 60)
+    traces = []
+    for i in range(ntr):
+        _cls, lines, _ = cc.gen_wellformed(rng, rng.choice([6, 12, 25, maxlines]))
+        traces.append(cc.record_parse_trace(lines, aea=bool(i % 5 == 0), wf=True, doc_every=7))
+    controls, vcontrols = [], []
+    for how in ("strict", "blocks", "warn", "content", "moved"):
+        for t in traces:
+            c = cc.corrupt_trace(t, how)
+            if c:
+                controls.append(c)
+                if how in ("strict", "warn", "content"):
+                    vcontrols.append(c)
+                break
+    if len(controls) < 4 and not ctx.violations:
+        raise core.MachineryError("could not build the corrupted control traces")
     cfg = "MC_Changelog_c04_quick.cfg" if quick else "MC_Changelog_c04.cfg"
-    with ThreadPoolExecutor(max_workers=4) as ex:
+    with ThreadPoolExecutor(max_workers=5) as ex:
+        f_traces = ex.submit(cc.validate, ctx, traces, controls, vcontrols)
         f_bnd = ex.submit(ctx.tlc_must_hold, "Changelog", cfg, workers=4 if quick else 8, want_tags={"CASE"})
         f_neg = [ex.submit(neg_control, ctx, bug, want) for bug, want in NEG_CONTROLS]
         r = f_bnd.result()
@@ -135,24 +153,8 @@ def run(ctx):
     ctx.sample("case %s -> %s" % ("".join(x[0] for x in mid["t"]), json.dumps(cc.join(lines), ensure_ascii=False)))
     ctx.sample("structure from TLC for it: " + json.dumps(mid["doc"], separators=(",", ":")))
 
-    # (b) code -> spec
-    ntr, maxlines = (60, 40) if quick else (1200, 60)
-    traces = []
-    for i in range(ntr):
-        _cls, lines, _ = cc.gen_wellformed(rng, rng.choice([6, 12, 25, maxlines]))
-        traces.append(cc.record_parse_trace(lines, aea=bool(i % 5 == 0), wf=True, doc_every=7))
-    controls, vcontrols = [], []
-    for how in ("strict", "blocks", "warn", "content", "moved"):
-        for t in traces:
-            c = cc.corrupt_trace(t, how)
-            if c:
-                controls.append(c)
-                if how in ("strict", "warn", "content"):
-                    vcontrols.append(c)
-                break
-    if len(controls) < 4:
-        raise core.MachineryError("could not build the corrupted control traces")
-    viol, drift, info = cc.validate(ctx, traces, controls, vcontrols)
+    # (b) code -> spec (recorded before, validated by TLC in parallel with the model checking)
+    viol, drift, info = f_traces.result()
     ctx.traces += n * k + len(traces)
     ctx.evaluations += len(traces)
     for i in range(len(traces)):
@@ -161,7 +163,7 @@ def run(ctx):
     ctx.extra["trace_lines"] = sum(len(t["lines"]) for t in traces)
     ctx.extra["traces_rejected"] = len(viol)
     ctx.extra["traces_drifting"] = len(drift)
-    if len(drift) * 20 > len(traces):
+    if len(drift) * 20 > len(traces) and not viol and not ctx.violations:
         raise core.MachineryError("%d of %d traces drift from the specification in diagnostic observables" % (len(drift), len(traces)))
     for i in drift[:10]:
         ctx.drift("well-formed trace %d: diagnostic mismatch at line %d: %r" % (i, info.get(i, 0) + 1, traces[i - 1]["text"][:info.get(i, 0) + 1][-1:]))
